@@ -517,7 +517,12 @@ class Type4ATag(Type4Tag):
         rats_res = self.clf.exchange(rats_cmd, timeout=0.03)
         log.debug("rcvd RATS response: {0}".format(hexlify(rats_res).decode()))
 
-        fsci, fwti = rats_res[1] & 0x0F, rats_res[3] >> 4
+        fsci, fwti = 2, 4  # default values if T0 or TB(1) are not sent
+        if len(rats_res) > 1:
+            fsci = rats_res[1] & 0x0F
+            tb_index = 2 + (rats_res[1] >> 4 & 1)  # TB(1) follows TA(1)
+            if rats_res[1] & 0x20 and len(rats_res) > tb_index:
+                fwti = rats_res[tb_index] >> 4
         if fsci > 8:
             log.warning("FSCI with RFU value in RATS_RES")
             fsci = 8
